@@ -90,6 +90,7 @@ def generate(run_seed, tier):
 
         g = W.Generator(rw, ref_compute, families=fams, knob_space=W.knob_space_default(), max_ops=6 if tier == "quick" else 8,
                         pool_knobs=False, knob_prob=0.0, max_parts=rw.choice([9, 12, 17, 20]))
+        g.prefer_null_keys = True
         recipe = g.generate()
         if recipe is None or not recipe["targets"]:
             return None
